@@ -311,6 +311,21 @@ Proof.
   destruct r; cbn [fst]; apply Good_same; exact H1.
 Qed.
 
+Lemma sj_do_close s : same_jobs s (do_close s).
+Proof. unfold do_close. destruct (pstate s =? 0); reflexivity. Qed.
+
+Lemma good_do_tick_close s k : Good s (fst (do_tick_close s k)).
+Proof.
+  unfold do_tick_close. pose proof (good_join_exited s) as H0. pose proof (good_do_tick s) as Ht.
+  destruct (join_exited s) as [s1 codes]. cbn [fst] in H0.
+  destruct (Z.to_nat (nprocs s1 - Z.of_nat (length (wlist s1))) <=? k)%nat; [exact Ht|].
+  pose proof (sj_repopulate (S k) 0 codes s1) as H1.
+  destruct (repopulate (S k) 0 codes s1) as [s2 r]. cbn [fst] in H1.
+  eapply Good_trans; [exact H0|].
+  destruct r; cbn [fst]; apply Good_same; try exact H1.
+  eapply sj_trans; [exact H1|]. eapply sj_trans; [apply sj_do_close|]. reflexivity.
+Qed.
+
 Lemma get_job_same s s' j : same_jobs s s' -> get_job s' j = get_job s j.
 Proof. unfold same_jobs, get_job. intros H. rewrite H. reflexivity. Qed.
 
@@ -470,9 +485,9 @@ Proof.
   - unfold do_shrink. destruct (inactive s0) as [|w ws] eqn:Ei; [apply Good_refl|].
     destruct (LaxSem.value (sem s0) <? Z.min (Z.max n 1) (Z.of_nat (length (w :: ws))));
       [apply Good_refl|]. apply Good_same. apply sj_shrink_loop.
-  - destruct (pstate s0 =? 0); cbn [fst]; [|apply Good_refl].
-    apply Good_same. eapply sj_trans; [apply sj_with_pstate|apply sj_with_sem].
+  - cbn [fst]. apply Good_same. apply sj_do_close.
   - apply good_do_next.
+  - apply good_do_tick_close.
 Qed.
 
 Lemma AllJ_init c : AllJ (init c).
